@@ -366,6 +366,44 @@ func genReplScript(r *kit.Rand, nrep int, tier string, withFaults bool) []REv {
 		at := r.Intn(len(prog) + 1)
 		prog = append(append(append([]kit.Op(nil), prog[:at]...), bulk...), prog[at:]...)
 	}
+	// Structured scenario (one case in seven): a replica joins behind a backlog
+	// that needs several catch-up rounds, and while it is catching up the
+	// primary flushes (rotates its log), restarts nothing, and takes a few more
+	// writes before going quiet. Random placement almost never puts a flush
+	// into those few hundred milliseconds.
+	if r.Bool(0.15) {
+		var script []REv
+		tag := uint32(200000)
+		n := r.Range(150, 420)
+		for i := 0; i < n; i++ {
+			tag++
+			o := kit.Op{K: "put", Key: []byte(fmt.Sprintf("bulk/%03d", r.Intn(200))), Tag: tag, Len: r.Range(1, 12)}
+			script = append(script, REv{K: "op", Op: &o})
+		}
+		who := r.Intn(nrep)
+		script = append(script, REv{K: "join", R: who})
+		for round := 0; round < r.Range(1, 3); round++ {
+			script = append(script, REv{K: "sleep", D: int64(kit.PickOf(r, 60, 110, 160, 210, 260, 400))})
+			o := kit.Op{K: "flush"}
+			script = append(script, REv{K: "op", Op: &o})
+			for i, m := 0, r.Range(1, 4); i < m; i++ {
+				p := prog[r.Intn(len(prog))]
+				if p.K == "put" || p.K == "del" || p.K == "txn" || p.K == "batch" {
+					q := p
+					script = append(script, REv{K: "op", Op: &q})
+				}
+			}
+		}
+		tag++
+		last := kit.Op{K: "put", Key: []byte("bulk/last"), Tag: tag, Len: 8}
+		script = append(script, REv{K: "op", Op: &last})
+		for i := 0; i < nrep; i++ {
+			if i != who && r.Bool(0.5) {
+				script = append(script, REv{K: "join", R: i})
+			}
+		}
+		return script
+	}
 	var script []REv
 	joinAt := make([]int, nrep)
 	for i := range joinAt {
